@@ -16,8 +16,16 @@ have must be absent or NaN; joined columns and row order must be unchanged.  Dom
 public path raises before/after otherwise): every Einsum has >= 1 row in total and the
 selection is non-empty; histories outside it are executed and recorded but not judged.
 
-Self-test (mutants on a scratch copy, VERIF_REPO=/tmp/af-mut-c15, quick tier):
-  (filled in after running)
+Self-test (mutants on a scratch copy, VERIF_REPO=/tmp/af-mut-c15, quick tier, all in
+compress_pmappings.py):
+  Ma decompress walk ``i < start_index`` -> ``i <= start_index``  -> CAUGHT (14205 histories,
+       exception/StopIteration|AssertionError and payload-mismatch)
+  Mb _compress: ``data.index += start_index`` removed (indices collide across tables)
+       -> CAUGHT (8339, payload-mismatch / exception)
+  Mc _compress_pmapping_list: ``decompress_data[start_index] = decompress`` ->
+       ``decompress_data.setdefault(start_index, decompress)`` (an empty table shadows the table
+       that follows it) -> CAUGHT (2640, only histories with an empty table before a used one)
+  Me decompress walks the sub-tables forwards instead of reversed -> CAUGHT (13230)
 """
 
 from __future__ import annotations
@@ -41,7 +49,7 @@ MANIFEST = {
 RULE = (
     "one history = (row counts of every table of every Einsum, payload/index variant, ordered selection of joined "
     "rows); distinct by construction. NON-TRIVIAL: in-domain history in which some selected row lives in a table "
-    "that is not the first of its Einsum's list (the reversed walk has to change sub-table), "
+    "that is not the first of its Einsum's list (the reversed walk has to change sub-table)"
 )
 ASSUMPTIONS = [
     "pandas merge / concat semantics",
